@@ -1,7 +1,7 @@
 META = {
     "level": "model_checking",
     "technique": "TLA+ model of run()'s shutdown block, Transport.close() and the wait loop of every blocking API (Shutdown.tla) model-checked by TLC: safety NoStuck + liveness (loss ~> inactive, loss ~> every caller returned) under weak fairness of each loop and no state constraint; TLC-generated schedules (Shutdown_Gen.tla: call before / in the middle of / at three points of the shutdown / after it) replayed on real transports over an in-memory link and a real ProxyCommand; event traces validated by TLC (Shutdown_Trace.tla)",
-    "text": "the pinned wait loops (toggles FALSE) are refuted by TLC (accept, channel requests, ensure_session, ProxyCommand.recv), the repaired ones proved for the model; on the code each API x plan x loss kind {peer DISCONNECT, EOF, peer close, protocol error, local close(), proxy process exit} x {no timeout, 60 s timeout} x {Transport, ServiceRequestingTransport} runs in a thread, the driver holds the shutdown or the call at the planned statement through instance-level wrappers, and records returned / raised / STILL_BLOCKED at a deadline; TLC decides P_inactive / P_returns on the event traces",
+    "text": "the pinned wait loops (toggles FALSE) are refuted by TLC (accept, channel requests, ensure_session, ProxyCommand.recv), the repaired ones proved for the model; on the code each API x plan x loss kind {peer DISCONNECT, EOF, peer close, protocol error, local close(), proxy process exit, proxy stdout closed while the process lingers} x {no timeout, 60 s timeout} x {Transport, ServiceRequestingTransport} runs in a thread, the driver holds the shutdown or the call at the planned statement through instance-level wrappers, and records returned / raised / STILL_BLOCKED at a deadline; TLC decides P_inactive / P_returns on the event traces",
     "note": "trusted: TLC, netsched (in-memory link), instance-level wrappers that only log and delay, the stack probe that tells when a call is blocked (CPython sys._current_frames); real time: 'promptly' = deadline D (2 s quick, 3 s thorough = 20-30x the 0.1 s polling period), a miss is re-run once in a fresh session with 2D before it counts; a 'timeout set' call uses a 60 s timeout so a timeout never explains a return",
 }
 import random
@@ -26,11 +26,11 @@ NTRACE = 4
 
 
 def consts(apis, n=1, kinds=("eof", "local_close"), fix=True, omit="none", modes=("blocking", "timed"), nopoll=(),
-           test_outside=False, role="server", wake_only_server=False, prior="none", eof_guard=False, **kw):
+           test_outside=False, role="server", wake_only_server=False, prior="none", eof_guard=False, eof_needs_exit=False, **kw):
     d = {"N": n, "Apis": set(apis), "Modes": set(modes), "LossKinds": set(kinds),
          "FixAccept": fix, "FixEvent": fix, "FixEnsure": fix, "FixProxy": fix, "Omit": omit,
          "EventTestOutside": test_outside, "Role": role, "WakeOnlyServer": wake_only_server,
-         "PriorOp": prior, "EofGuardOnClose": eof_guard, "NoPoll": "@{%s}" % ", ".join('"%s"' % x for x in nopoll)}
+         "PriorOp": prior, "EofGuardOnClose": eof_guard, "ProxyEofNeedsExit": eof_needs_exit, "NoPoll": "@{%s}" % ", ".join('"%s"' % x for x in nopoll)}
     d.update(kw)
     return d
 
@@ -195,12 +195,16 @@ def run(c):
     g_f = gen(False, 1, apis, "schedules, pinned loops")
     g_r = gen(True, 1, apis, "schedules, repaired loops")
     later = [job("Shutdown", cfg_text(spec="FairSpec", constants=consts(apis + ["proxy_recv", "proxy_send"], n=1,
-                                                                        kinds=("eof", "local_close", "proxy_exit")),
+                                                                        kinds=("eof", "local_close", "proxy_exit", "proxy_eof")),
                                       invariants=SAFETY, properties=LIVE),
-                 "repaired loops, every API, one caller, loss by EOF / close() / proxy exit: safety + liveness"),
+                 "repaired loops, every API, one caller, loss by EOF / close() / proxy exit / proxy stdout closed while the process lingers: safety + liveness"),
              job("Shutdown", cfg_text(spec="FairSpec", constants=consts(papis, n=1, kinds=("proxy_exit",), fix=False),
                                       invariants=["TypeOK"], properties=LIVE),
                  "sensitivity: pinned ProxyCommand.recv (no end of file) - transport never inactive", expect="<temporal>"),
+             job("Shutdown", cfg_text(spec="FairSpec", constants=consts(papis, n=1, kinds=("proxy_eof",), eof_needs_exit=True),
+                                      invariants=["TypeOK"], properties=LIVE),
+                 "sensitivity: ProxyCommand.recv takes an empty read for end of file only once the process has exited, "
+                 "the command closed its stdout and lingers - transport never inactive", expect="<temporal>"),
              job("Shutdown", cfg_text(constants=consts(["global_request", "request_port_forward"], n=1, nopoll=("global",)),
                                       invariants=SAFETY),
                  "sensitivity: global_request waits on completion_event without polling `active` (stuck on close())",
@@ -246,6 +250,9 @@ def run(c):
         for om in ("unlink", "clear", "notify"):
             specs.append(("Shutdown", cfg_text(constants=consts(["recv", "accept", "global_request"], n=2, omit=om), invariants=SAFETY),
                           "sensitivity: shutdown block without '%s'" % om, "NoStuck|Order"))
+        specs.append(("Shutdown", cfg_text(spec="FairSpec", constants=consts(papis, n=1, kinds=("proxy_exit",), eof_needs_exit=True),
+                                           invariants=SAFETY, properties=LIVE),
+                      "redundancy: ProxyCommand.recv needing the exit for end of file, the command exits (the toggle only bites when the process lingers)", None))
         # close() and run() both unlink the channels: leaving out close()'s loop alone breaks nothing
         specs.append(("Shutdown", cfg_text(constants=consts(["recv", "exec_command"], n=2, omit="cl_unlink"), invariants=SAFETY),
                       "redundancy: close() without its unlink loop (run() still unlinks)", None))
@@ -366,6 +373,20 @@ def run(c):
     for callers, plan, cl in pcs:
         tasks.append([{"id": (tuple(callers), plan, cl, "proxy_exit"), "fn": sd.run_proxy_case,
                        "args": (callers, plan, cl), "pred": None}])
+    # the proxy command closes its stdout (the transport's stream is at end of file) and goes on running - a relay
+    # with half-close semantics.  Fixed stratum, every tier and seed: recv directly, and a client transport over it
+    direct_eof = [("proxy_recv", "blocking", "before"), ("proxy_recv", "blocking", "after")]
+    pcs_eof = [([("recv", "blocking"), ("recv_exit_status", "blocking")], "before", "Transport"),
+               ([("open_session", "timed"), ("global_request", "blocking")], "after", "SRT")]
+    if not quick:
+        direct_eof += [("proxy_send", "blocking", "after")]
+        pcs_eof += [([("recv_stderr", "timed"), ("send", "blocking")], "before", "SRT"),
+                    ([("exec_command", "blocking"), ("renegotiate_keys", "blocking")], "after", "Transport")]
+    for a in direct_eof:
+        tasks.append([{"id": a + ("proxy_eof",), "fn": sd.run_direct_proxy, "args": a, "kw": {"kind": "proxy_eof"}, "pred": None}])
+    for callers, plan, cl in pcs_eof:
+        tasks.append([{"id": (tuple(callers), plan, cl, "proxy_eof"), "fn": sd.run_proxy_case,
+                       "args": (callers, plan, cl), "kw": {"kind": "proxy_eof"}, "pred": None}])
     # ------------------------------------------------------------------ TV: free-running sessions
     client_apis = [a for a in apis if sd.family(a) not in ("auth", "srtauth", "accept")]
     nfree = 14 if quick else 160
@@ -445,7 +466,7 @@ def run(c):
         c.conformance("driver_error:%s" % (cid[0] if isinstance(cid[0], str) else "session"), "%r: %s" % (cid, err))
     for j_ in later:
         j_.settle()
-    tconst = consts(["recv"], n=NTRACE, kinds=KINDS + ["proxy_exit"])
+    tconst = consts(["recv"], n=NTRACE, kinds=KINDS + ["proxy_exit", "proxy_eof"])
     res, _ = c.trace("Shutdown_Trace", batch, cfg_text(spec="TSpec", constants=tconst, invariants=["Report"]))
     if len(res["DONE"]) != len(batch):
         raise Machinery("trace validation consumed %d of %d traces" % (len(res["DONE"]), len(batch)))
